@@ -31,9 +31,10 @@ Theorem c15_offset_keeps_limit : forall st n,
 Proof. exact merge_offset_keeps_limit. Qed.
 Print Assumptions c15_offset_keeps_limit.
 
-(* whole chains: with non-zero arguments the statement Find sends means exactly "last positive
-   Limit/Offset wins, a later negative one cancels" *)
-Theorem c15_chain_reference : forall tbl c o ops, nonzero_ops ops = true ->
+(* whole chains: when the last Limit and the last Offset of the chain are not zero (earlier zeros
+   allowed) the statement Find sends means exactly "last positive Limit/Offset wins, a later
+   negative one cancels" *)
+Theorem c15_chain_reference : forall tbl c o ops, last_nonzero ops = true ->
   find tbl c o (st_of (apply_lops ops)) =
   let after := skipn (Z.to_nat (ref_off ops)) (ordered o (matches c tbl)) in
   match ref_lim ops with Some n => firstn (Z.to_nat n) after | None => after end.
